@@ -277,8 +277,8 @@ def op_apply(w, name, V, tag):
         s.Set_Iter(n0)
         w.P[0]["bc"] = []
         # the mesh that comes back is the one that was current when iteration n0 was saved (known independently of the simulation)
-        w.extra.append(("mesh restored by Set_Iter (coordinates)", np.asarray(s.mesh.coord, dtype=object).reshape(-1), coord0.reshape(-1)))
-        w.extra.append(("mesh restored by Set_Iter (connectivity)", np.asarray(s.mesh.connect, dtype=object).reshape(-1), np.asarray(connect0, dtype=object).reshape(-1)))
+        w.extra.append((f"mesh restored by Set_Iter (coordinates) [operation {tag.strip('_')}]", np.asarray(s.mesh.coord, dtype=object).reshape(-1), coord0.reshape(-1)))
+        w.extra.append((f"mesh restored by Set_Iter (connectivity) [operation {tag.strip('_')}]", np.asarray(s.mesh.connect, dtype=object).reshape(-1), np.asarray(connect0, dtype=object).reshape(-1)))
     else:
         raise KeyError(name)
 
